@@ -234,6 +234,8 @@ def build_world(case, order: str, rng):
             record.add_protocluster(p())
         for s in subs:
             record.add_subregion(s())
+        # ... and one more area that the second run does not find again (it holds every gene of the record)
+        record.add_subregion(W.make_subregion([(0, case["L"])], "earlier-only"))
         record.create_candidate_clusters()
         record.create_regions()
         record.strip_antismash_annotations()
